@@ -680,7 +680,7 @@ impl<'a> RustGraph<'a> {
                                     for (pos, v) in vs.iter().enumerate() {
                                         let fs = self.fields_nodes(&v.fields, &env, item_mod, depth);
                                         // the marker variant for unused parameters carries only PhantomData
-                                        if v.name == "__Ignore" && fs.is_empty() && !v.fields.list().is_empty() {
+                                        if pos + 1 == vs.len() && fs.is_empty() && !v.fields.list().is_empty() {
                                             continue;
                                         }
                                         out.push((v.index.unwrap_or(pos as u8), v.name.clone(), fs));
